@@ -16,6 +16,7 @@ from units import boxed as _b
 
 NAME = "mrs_entry"
 PROPERTIES = ["C20"]
+SCREEN_FLOAT_CASTS = True
 ACC = "metrique-metricsrs/src/accumulator.rs"
 
 
@@ -54,7 +55,15 @@ pub mod float_axioms {
     pub broadcast axiom fn f64_mul_req(a: f64, b: f64) ensures #[trigger] a.mul_req(b);
     pub broadcast axiom fn f64_mul_obeys(a: f64, b: f64) ensures <f64 as MulSpec<f64>>::obeys_mul_spec() || #[trigger] a.mul_spec(b) != a.mul_spec(b);
 }
-broadcast use {float_axioms::f64_mul_req, float_axioms::f64_mul_obeys};
+pub mod mul_bounds {
+    use vstd::prelude::*;
+    // nonlinear fact z3 does not find unprompted: the product of two 32-bit quantities fits 64 bits
+    pub broadcast proof fn lemma_mul_u32_fits_u64(x: int, y: int)
+        requires 0 <= x <= u32::MAX, 0 <= y <= u32::MAX,
+        ensures 0 <= #[trigger] (x * y) <= 0xFFFF_FFFE_0000_0001,
+    { assert(0 <= x * y <= 0xFFFF_FFFE_0000_0001) by(nonlinear_arith) requires 0 <= x <= 0xFFFF_FFFF, 0 <= y <= 0xFFFF_FFFF; }
+}
+broadcast use {float_axioms::f64_mul_req, float_axioms::f64_mul_obeys, mul_bounds::lemma_mul_u32_fits_u64};
 pub uninterp spec fn u32_as_f64(x: u32) -> f64;
 #[verifier::external_body]
 pub fn verif_u32_as_f64(x: u32) -> (r: f64) ensures r == u32_as_f64(x) { unimplemented!() }
